@@ -23,28 +23,31 @@ deriving DecidableEq, Repr
 
 @[inline] def sq (a : BnFq2) : BnFq2 := Quad.sqrComplex a
 
-/-- `engine.rs: ell` — the line `(c0·p.y) + (c1·p.x) w³… ` folded into `f` by `mul_by_034`. -/
-def ell (f : BnFq12) (c0 c1 c2 : BnFq2) (p : BnFq × BnFq) : BnFq12 :=
-  mulBy034 f (Quad.scale c0 p.2) (Quad.scale c1 p.1) c2
+/-! The two step functions of `derive/pairing.rs`, generic in the coefficient type `β` of the twist
+(`sq` is the squaring routine in use: `Fq2::square`), so that the theorems can state them over any
+commutative ring. They return the new accumulator `(x, y, z)` and the three line coefficients handed
+to `ell`. -/
+section Steps
+variable {β : Type} [Add β] [Sub β] [Mul β] [Neg β]
 
-/-- `pairing.rs: double` — doubling step: new accumulator and `f` multiplied by the tangent line. -/
-def doubleStep (f : BnFq12) (r : G2J) (p : BnFq × BnFq) : BnFq12 × G2J :=
-  let t0 := sq r.x
-  let t1 := sq r.y
+/-- `pairing.rs: double` without the final `ell`: `((x', y', z'), (t0, t3, t6))`. -/
+def doubleCoeffs (sq : β → β) (rx ry rz : β) : (β × β × β) × (β × β × β) :=
+  let t0 := sq rx
+  let t1 := sq ry
   let t2 := sq t1
-  let t3 := sq (t1 + r.x) - t0 - t2
+  let t3 := sq (t1 + rx) - t0 - t2
   let t3 := t3 + t3
   let t4 := t0 + t0 + t0
-  let t6 := r.x + t4
+  let t6 := rx + t4
   let t5 := sq t4
-  let zsquared := sq r.z
-  let rx := t5 - t3 - t3
-  let rz := sq (r.z + r.y) - t1 - zsquared
-  let ry := (t3 - rx) * t4
+  let zsquared := sq rz
+  let x' := t5 - t3 - t3
+  let z' := sq (rz + ry) - t1 - zsquared
+  let y' := (t3 - x') * t4
   let t2 := t2 + t2
   let t2 := t2 + t2
   let t2 := t2 + t2
-  let ry := ry - t2
+  let y' := y' - t2
   let t3 := t4 * zsquared
   let t3 := t3 + t3
   let t3 := -t3
@@ -52,39 +55,55 @@ def doubleStep (f : BnFq12) (r : G2J) (p : BnFq × BnFq) : BnFq12 × G2J :=
   let t1 := t1 + t1
   let t1 := t1 + t1
   let t6 := t6 - t1
-  let t0 := rz * zsquared
+  let t0 := z' * zsquared
   let t0 := t0 + t0
-  (ell f t0 t3 t6 p, ⟨rx, ry, rz⟩)
+  ((x', y', z'), (t0, t3, t6))
 
-/-- `pairing.rs: add` — mixed addition step with the affine point `q`. -/
-def addStep (f : BnFq12) (r : G2J) (q : BnFq2 × BnFq2) (p : BnFq × BnFq) : BnFq12 × G2J :=
-  let zsquared := sq r.z
-  let ysquared := sq q.2
-  let t0 := zsquared * q.1
-  let t1 := (sq (q.2 + r.z) - ysquared - zsquared) * zsquared
-  let t2 := t0 - r.x
+/-- `pairing.rs: add` without the final `ell`: `((x', y', z'), (t10, t1, t9))`. -/
+def addCoeffs (sq : β → β) (rx ry rz qx qy : β) : (β × β × β) × (β × β × β) :=
+  let zsquared := sq rz
+  let ysquared := sq qy
+  let t0 := zsquared * qx
+  let t1 := (sq (qy + rz) - ysquared - zsquared) * zsquared
+  let t2 := t0 - rx
   let t3 := sq t2
   let t4 := t3 + t3
   let t4 := t4 + t4
   let t5 := t4 * t2
-  let t6 := t1 - r.y - r.y
-  let t9 := t6 * q.1
-  let t7 := t4 * r.x
-  let rx := sq t6 - t5 - t7 - t7
-  let rz := sq (r.z + t2) - zsquared - t3
-  let t10 := q.2 + rz
-  let t8 := (t7 - rx) * t6
-  let t0 := r.y * t5
+  let t6 := t1 - ry - ry
+  let t9 := t6 * qx
+  let t7 := t4 * rx
+  let x' := sq t6 - t5 - t7 - t7
+  let z' := sq (rz + t2) - zsquared - t3
+  let t10 := qy + z'
+  let t8 := (t7 - x') * t6
+  let t0 := ry * t5
   let t0 := t0 + t0
-  let ry := t8 - t0
+  let y' := t8 - t0
   let t10 := sq t10 - ysquared
-  let ztsquared := sq rz
+  let ztsquared := sq z'
   let t10 := t10 - ztsquared
   let t9 := t9 + t9 - t10
-  let t10 := rz + rz
+  let t10 := z' + z'
   let t6 := -t6
   let t1 := t6 + t6
-  (ell f t10 t1 t9 p, ⟨rx, ry, rz⟩)
+  ((x', y', z'), (t10, t1, t9))
+
+end Steps
+
+/-- `engine.rs: ell` — the line `(c0·p.y) + (c1·p.x) w³… ` folded into `f` by `mul_by_034`. -/
+def ell (f : BnFq12) (c0 c1 c2 : BnFq2) (p : BnFq × BnFq) : BnFq12 :=
+  mulBy034 f (Quad.scale c0 p.2) (Quad.scale c1 p.1) c2
+
+/-- `pairing.rs: double` — doubling step: new accumulator and `f` multiplied by the tangent line. -/
+def doubleStep (f : BnFq12) (r : G2J) (p : BnFq × BnFq) : BnFq12 × G2J :=
+  let ((x, y, z), (c0, c1, c2)) := doubleCoeffs sq r.x r.y r.z
+  (ell f c0 c1 c2 p, ⟨x, y, z⟩)
+
+/-- `pairing.rs: add` — mixed addition step with the affine point `q`. -/
+def addStep (f : BnFq12) (r : G2J) (q : BnFq2 × BnFq2) (p : BnFq × BnFq) : BnFq12 × G2J :=
+  let ((x, y, z), (c0, c1, c2)) := addCoeffs sq r.x r.y r.z q.1 q.2
+  (ell f c0 c1 c2 p, ⟨x, y, z⟩)
 
 /-- One pass over all terms with a step function (the `for … in terms.iter().zip(r.iter_mut())`
 loops): threads `f` through, updates every accumulator. -/
